@@ -552,6 +552,17 @@ func (v *Value) EqualValueTo(other *Value) bool {
 	if v.IsTime() && other.IsTime() {
 		return v.Time().Equal(other.Time())
 	}
+	// floats, strings and booleans are compared by what they hold, like integers above:
+	// the .Interface()-comparison below is false for a float32 and a float64, for a named
+	// string type and a string, for a pointer to a value and the value
+	switch {
+	case v.IsFloat() && other.IsFloat():
+		return v.Float() == other.Float()
+	case v.IsString() && other.IsString():
+		return v.String() == other.String()
+	case v.IsBool() && other.IsBool():
+		return v.Bool() == other.Bool()
+	}
 	if !v.val.IsValid() || !other.val.IsValid() {
 		return false
 	}
